@@ -411,6 +411,10 @@ func runFileCase(fc *FileCase, tr *Tr) error {
 			}
 			tr.Emit(M{"ev": "whole", "how": "asbytes", "n": len(b), "e": errClass(err), "data": d, "eq": eq,
 				"loads": classes(fw, loads), "failed": classes(fw, failed)})
+		case "heal":
+			// every block becomes available again (retrieval resumes): readers must carry on correctly
+			st.ClearFaults()
+			tr.Emit(M{"ev": "heal"})
 		case "reopen":
 			// construct a fresh node from the root block (cold state)
 			if err := openNode(); err != nil {
